@@ -3,7 +3,10 @@
 * per signalling method: does it contain `self.cv.notify_all()` (or `notify_one()`: one waiter, same
   thing) and inside which `if` conditions — the *notify table*;
 * the order of the four statements in the `loop` of `wait_for_credit` and `wait_for_reconnect`:
-  cancel test, condition test, deadline test, `cv.wait_timeout`.
+  cancel test, condition test, deadline test, `cv.wait_timeout`;
+* whether each loop holds the mutex without a gap from its tests to `wait_timeout`
+  (`creditAtomic`, `reconnectAtomic`): a second `.lock()`, a scoped guard or a `drop(..)` inside the
+  loop is extracted as `false` (a fact the proofs then reject), not as an unrecognised form.
 
 Closed set of recognised forms; anything else raises ExtractError (=> committed defaults, tie by the
 correspondence alone).
@@ -107,18 +110,30 @@ def loop_order(imp, method, pred_re):
         if len(ms) != 1:
             raise ExtractError(f"{method}: loop statement `{name}` found {len(ms)} times")
         pos[name] = ms[0].start()
-    # every one of them must be a top-level statement of the loop body
+    # every one of them must be a statement of the loop body itself or of a bare `{ … }` block in it
+    # (a scoped guard); anything else (if/match/inner loop) is not a recognised form
+    scoped = False
     for name in forms:
         raw = re.search(forms[name].replace(" ", r"\s*"), lb)
         if raw is None:
             raise ExtractError(f"{method}: `{name}` not locatable")
-        if enclosing_headers(lb, raw.start()):
-            raise ExtractError(f"{method}: `{name}` is nested")
+        heads = enclosing_headers(lb, raw.start())
+        if any(h != "" for h in heads):
+            raise ExtractError(f"{method}: `{name}` is nested in `{heads}`")
+        scoped = scoped or bool(heads)
+    # FACT: is the mutex held without a gap from the tests to `wait_timeout`?  Recognised as: exactly one
+    # `.lock()` in the function, taken before the loop; no statement of the loop is in a scoped block; the
+    # guard is never dropped or re-bound by a second lock inside the loop.
+    locks = [mm.start() for mm in re.finditer(r"\.lock\(\)", body)]
+    atomic = (len(locks) == 1 and locks[0] < m.start() and not scoped
+              and not re.search(r"\bdrop\s*\(", lb) and not re.search(r"\.lock\(\)", lb))
+    if not locks:
+        raise ExtractError(f"{method}: no `.lock()`")
     # `now` must be read after the condition test has been passed over, i.e. the timeout handed to the
     # wait is measured from the same `now` the deadline test used
     if not re.search(r"let now = Instant::now\(\);", n):
         raise ExtractError(f"{method}: `let now = Instant::now()` missing")
-    return [k for k, _ in sorted(pos.items(), key=lambda kv: kv[1])]
+    return [k for k, _ in sorted(pos.items(), key=lambda kv: kv[1])], atomic
 
 
 def extract():
@@ -133,10 +148,10 @@ def extract():
     for _, method in METHODS:
         if len(re.findall(r"\.lock\(\)", fn_body(imp, method))) != 1:
             raise ExtractError(f"{method}: not exactly one lock region")
-    facts["creditLoop"] = loop_order(
+    facts["creditLoop"], facts["creditAtomic"] = loop_order(
         imp, "wait_for_credit",
         r"if in_flight == 0 \|\| [^{}]*window_bytes[^{}]*\{ return Ok\(\(\)\);? \}")
-    facts["reconnectLoop"] = loop_order(
+    facts["reconnectLoop"], facts["reconnectAtomic"] = loop_order(
         imp, "wait_for_reconnect",
         r"if let Some\(pending\) = \w+\.pending_resume\.take\(\) \{ return [\w:]*ResumeReady\(pending\);? \}")
     cb = norm(fn_body(imp, "wait_for_credit"))
@@ -166,7 +181,10 @@ def render(f):
         "/-- order of the statements in the `loop` of wait_for_credit / wait_for_reconnect -/",
         f"def creditLoop : List WStep := {lp(f['creditLoop'])}",
         f"def reconnectLoop : List WStep := {lp(f['reconnectLoop'])}",
-        "def cfg : Cfg := ⟨table, creditLoop, reconnectLoop⟩",
+        "/-- is the mutex held from the tests to `wait_timeout` without a gap -/",
+        f"def creditAtomic : Bool := {'true' if f['creditAtomic'] else 'false'}",
+        f"def reconnectAtomic : Bool := {'true' if f['reconnectAtomic'] else 'false'}",
+        "def cfg : Cfg := ⟨table, creditLoop, reconnectLoop, creditAtomic, reconnectAtomic⟩",
         "end Repe.Gen.Wake",
     ]) + "\n"
 
